@@ -6,6 +6,7 @@ CONSTANTS
   MaxDepth = 3
   MaxLen = 6
   Forms = {"plain", "open", "neg", "over"}
+  ColFamily = "small"
   PairFamily = "all"
 INVARIANT TypeOK
 INVARIANT Rectangular
